@@ -41,6 +41,46 @@ def table_rows():
     return rows
 
 
+PG_CFG = """SPECIFICATION Spec
+CHECK_DEADLOCK FALSE
+INVARIANT TableOK
+INVARIANT RowOK
+INVARIANT Constructed
+INVARIANT ReportOK
+"""
+
+
+def _pg_report(row):
+    """What a real SpaceGroup object of this setting says its point group, crystal system and Laue class are."""
+    from chmpy.crystal.space_group import SpaceGroup
+    from chmpy.crystal.point_group import POINT_GROUP_DATA
+    out = {"number": row["number"], "ops": row["ops"], "exc": "", "rep": {"pg": 0, "system": "", "laue": ""}}
+    try:
+        sg = SpaceGroup(row["number"], choice=row["choice"])
+        pg = sg.point_group
+        k = [i for i, x in enumerate(POINT_GROUP_DATA) if x is pg]
+        out["ops"] = [int(s.integer_code) for s in sg.symmetry_operations]
+        out["rep"] = {"pg": (k[0] + 1) if k else 0, "system": str(sg.crystal_system), "laue": str(sg.laue_class)}
+        if sg.pg is not pg:
+            out["exc"] = "AliasDiffers"
+    except Exception as e:
+        out["exc"] = type(e).__name__
+    return out
+
+
+def export_point_groups(path, rows):
+    from chmpy.crystal.point_group import POINT_GROUP_DATA, PointGroup
+    pgs = []
+    for i, x in enumerate(POINT_GROUP_DATA):
+        gens = [int(s.integer_code) for s in x.symmetry_operations]
+        # from_number must hand out this very row for its own (number, choice)
+        same = PointGroup.from_number(x.number, choice=x.choice) if x.choice else PointGroup.from_number(x.number)
+        first = [y for y in POINT_GROUP_DATA if y.number == x.number and (not x.choice or y.choice == x.choice)][0]
+        pgs.append({"number": int(x.number), "gens": gens, "system": x.crystal_system, "laue": x.laue_group,
+                    "lookup": bool(same is first)})
+    tlc.write_json(path, {"pgs": pgs, "rows": [_pg_report(r) for r in rows]})
+
+
 def export_table(path):
     rows = table_rows()
     tlc.write_json(path, {"rows": rows})
@@ -157,6 +197,11 @@ def run(ctx, explain=False):
         rows = export_table(sgfile)
         ctx.model_check("mc/MC_SpaceGroup.tla", MC_CFG % "origin", name="MC_SpaceGroup(table,origin)",
                         data_driven=True, env={"SG_FILE": sgfile}, timeout=600)
+        # beyond the listed property: the point group, crystal system and Laue class each setting reports (PointGroup.tla)
+        pgfile = os.path.join(d, "pg.json")
+        export_point_groups(pgfile, rows)
+        ctx.model_check("mc/MC_PointGroup.tla", PG_CFG, name="MC_PointGroup(table, 530 settings)", extension=True,
+                        env={"PG_FILE": pgfile}, extra=["-continue"], timeout=600)
         if explain:
             res = tlc.run("mc/MC_SpaceGroup.tla", MC_CFG % "asbuilt", env={"SG_FILE": sgfile},
                           extra=["-continue"], timeout=600)
